@@ -32,7 +32,7 @@ echo "== demo without change"; timeout 600 $DEMOCMD > $D/demo_without.log 2>&1; 
 git apply patch.diff
 echo "== check quick"; cd /verif; VERIF_REPO=$W bin/vcheck run $P --tier quick > $D/check_quick.log 2>&1; Q=$?; grep -E "VIOLATION|signature|SUMMARY|INCONCL" $D/check_quick.log | head -8
 T=-1
-if [ $Q -ne 1 ]; then echo "== check thorough"; VERIF_REPO=$W bin/vcheck run $P --tier thorough > $D/check_thorough.log 2>&1; T=$?; grep -E "VIOLATION|signature|SUMMARY|INCONCL" $D/check_thorough.log | head -8; fi
+if [ $Q -ne 1 ] && [ -z "${SKIP_THOROUGH:-}" ]; then echo "== check thorough"; VERIF_REPO=$W bin/vcheck run $P --tier thorough > $D/check_thorough.log 2>&1; T=$?; grep -E "VIOLATION|signature|SUMMARY|INCONCL" $D/check_thorough.log | head -8; fi
 python3 - <<PY
 import json,os
 m={}
